@@ -15,7 +15,30 @@ FUEL = 400
 EMBEDS = ["snippet", "import", "ext", "tla"]
 
 
+def tla_wrap(rng, p, idx):
+    """the program as the body of a top-level function whose defaulted parameters refer to each other
+    (and shadow nothing): some are supplied as --tla-code, the rest fall back to their defaults"""
+    t = [f"t{idx}a", f"t{idx}b", f"t{idx}c"]
+    params = [(t[0], ("num", rng.choice([10, 3]))),
+              (t[1], ("bin", "+", ("var", t[0]), ("num", 1))),
+              (t[2], ("bin", "*", ("var", t[1]), ("num", 2)))]
+    if rng.chance(0.3):
+        params[0] = (t[0], None)
+    supplied = [(n, ("bin", "+", ("num", rng.below(5)), ("num", 1))) for n, d in params if d is None or rng.chance(0.3)]
+    body = ("arr", [("var", t[0]), ("var", t[1]), ("var", t[2]), p])
+    return ("tlawrap", ("fun", params, body), supplied)
+
+
+def sem_ast(p):
+    if p[0] == "tlawrap":
+        return ("app", p[1], [], p[2], False)
+    return p
+
+
 def make_request(p, embed, named):
+    if p[0] == "tlawrap":
+        return {"code": g.to_js(p[1], named_calls=named),
+                "tla_code": {n: g.to_js(e) for n, e in p[2]}}
     code = g.to_js(p, named_calls=named)
     if embed == "tla":
         # the program as the body of a top-level-argument function whose parameter it does not use
@@ -71,6 +94,11 @@ def operator_grid():
 def generate(run, n):
     pg = g.ProgGen(run.rng.fork("progs"))
     progs = operator_grid() + [pg.program() for _ in range(n)]
+    rr = run.rng.fork("tla")
+    ng = len(operator_grid())
+    for i in range(ng, len(progs)):
+        if (i - ng) % 6 == 0:
+            progs[i] = tla_wrap(rr, progs[i], i)
     for k, v in pg.stats.items():
         run.count("gen:" + k, v)
     return progs
@@ -79,7 +107,7 @@ def generate(run, n):
 def correspond(run, binary, progs, light=0):
     """the first [light] programs (operator grid) run in the two parser configurations only"""
     failures, skipped = [], 0
-    sem = core.coq_eval(g.SEM_IMPORTS, [f"run {FUEL} {g.to_coq(p)}" for p in progs], timeout=1200)
+    sem = core.coq_eval(g.SEM_IMPORTS, [f"run {FUEL} {g.to_coq(sem_ast(p))}" for p in progs], timeout=1200)
     run.log("Sem evaluated")
     # configurations: every program in the base config + 5 others chosen by the seeded PRNG so that
     # over the run every (parser, style, embedding) combination is exercised equally
@@ -122,15 +150,15 @@ def correspond(run, binary, progs, light=0):
         ok = (kind == "val" and got == ("val", val)) or (kind == "err" and got[0] == "err")
         if (i, "n") not in reported:
             reported.add((i, "n"))
-            run.note_case(g.to_js(p), g.size(p) >= 6)
+            run.note_case(json.dumps(make_request(p, "snippet", False), sort_keys=True), g.size(p) >= 6)
             run.count("sem:" + (kind if kind == "val" else "err:" + val))
             if len(run.samples) < 5 and kind == "val" and g.size(p) > 25:
-                run.samples.append({"jsonnet": g.to_js(p), "value": json.dumps(val)[:200]})
+                run.samples.append({"request": make_request(p, "snippet", False), "value": json.dumps(val)[:200]})
         if not ok and i not in reported:
             reported.add(i)
             req = make_request(p, emb, named)
             failures.append({
-                "case": {"request": req, "config": cfg, "coq": g.to_coq(p)},
+                "case": {"request": req, "config": cfg, "coq": g.to_coq(sem_ast(p))},
                 "summary": f"C01 {cfg}: {req['code'][:160]}",
                 "expected": {"sem": [kind, val]}, "got": got,
                 "known": is_known(p, (kind, val), got)})
